@@ -51,6 +51,7 @@ def GivenOk : Expr → Bool
   | .upper e => GivenOk e
   | .lower e => GivenOk e
   | .cref e => GivenOk e
+  | .vref e => GivenOk e
   | _ => true
 def GivenOkList : List Expr → Bool
   | [] => true
@@ -70,6 +71,7 @@ def FiniteBounds : Expr → Bool
   | .lower e => FiniteBounds e &&
       (match abs e with | some (.int a) => !a.min.isInf | _ => true)
   | .cref e => FiniteBounds e
+  | .vref e => FiniteBounds e
   | _ => true
 def FiniteBoundsList : List Expr → Bool
   | [] => true
@@ -90,6 +92,7 @@ def ivars : Expr → List Nat
   | .upper e => ivars e
   | .lower e => ivars e
   | .cref e => ivars e
+  | .vref e => ivars e
   | _ => []
 def ivarsList : List Expr → List Nat
   | [] => []
